@@ -69,6 +69,28 @@ impl<K, V> KMap<K, V> {
     #[verifier::external_body]
     fn is_empty(&self) -> (r: bool) ensures r == (self@.dom() =~= Set::<K>::empty()) { unimplemented!() }
 }
+#[verifier::external_body]
+#[verifier::reject_recursive_types(K)]
+struct KSet<K> { _p: core::marker::PhantomData<K> }
+impl<K> KSet<K> {
+    uninterp spec fn view(&self) -> Set<K>;
+    #[verifier::external_body]
+    fn insert(&mut self, k: K) -> (r: bool) ensures final(self)@ == old(self)@.insert(k) { unimplemented!() }
+    #[verifier::external_body]
+    fn contains(&self, k: &K) -> (r: bool) ensures r == self@.contains(*k) { unimplemented!() }
+    #[verifier::external_body]
+    fn clear(&mut self) ensures final(self)@ =~= Set::<K>::empty() { unimplemented!() }
+}
+impl<K, V> KMap<K, V> {
+    // HashMap::drain(): every entry once, in an arbitrary order; the map is left empty
+    #[verifier::external_body]
+    fn drain_all(&mut self) -> (r: Vec<(K, Vec<V>)>)
+        ensures final(self)@ =~= Map::<K, Seq<V>>::empty()
+    { unimplemented!() }
+}
+type OuterJoinTuple<Out1, Out2> = (Option<Out1>, Option<Out2>);
+spec fn opairs_l<K, V1, V2>(k: K, v1: V1, rs: Seq<V2>) -> Seq<(K, (Option<V1>, Option<V2>))> { Seq::new(rs.len(), |i: int| (k, (Some(v1), Some(rs[i])))) }
+spec fn opairs_r<K, V1, V2>(k: K, ls: Seq<V1>, v2: V2) -> Seq<(K, (Option<V1>, Option<V2>))> { Seq::new(ls.len(), |i: int| (k, (Some(ls[i]), Some(v2)))) }
 spec fn at<K, V>(m: Map<K, Seq<V>>, k: K) -> Seq<V> { if m.contains_key(k) { m[k] } else { Seq::empty() } }
 // the pairs of a new left element with the stored right elements, in order / of the stored left elements with a new right one
 spec fn pairs_l<K, V1, V2>(k: K, v1: V1, rs: Seq<V2>) -> Seq<(K, (V1, V2))> { Seq::new(rs.len(), |i: int| (k, (v1, rs[i]))) }
@@ -92,6 +114,33 @@ impl<K: DataKey + ExchangeData, V1: ExchangeData, V2: ExchangeData> JoinKeyedInn
         }
     }
 }
+'''
+OUTER_SPEC = r'''
+        requires old(self).left.count < usize::MAX, old(self).right.count < usize::MAX,
+        ensures
+            final(self).prev == old(self).prev, final(self).coord == old(self).coord, final(self).variant == old(self).variant,
+            (item matches BinaryElement::Left((k, v1)) ==> {
+                let lo = old(self).variant is Left || old(self).variant is Outer; let ro = old(self).variant is Outer;
+                &&& final(self).buffer@ == old(self).buffer@ + (if old(self).right.data@.contains_key(k) { opairs_l(k, v1, old(self).right.data@[k]) }
+                        else if old(self).right.ended && lo { seq![(k, (Some(v1), None::<V2>))] } else { Seq::empty() })           // #obl:keyed_outer.left_element_paired_with_every_stored_right_element_or_padded_once
+                &&& final(self).left.keys@ == (if ro { old(self).left.keys@.insert(k) } else { old(self).left.keys@ })             // #obl:keyed_outer.left_key_recorded_whenever_the_right_side_is_outer
+                &&& final(self).left.data@ == (if !old(self).right.ended { old(self).left.data@.insert(k, at(old(self).left.data@, k).push(v1)) } else { old(self).left.data@ })   // #obl:keyed_outer.left_element_stored_while_the_right_side_is_open
+                &&& final(self).right == old(self).right && final(self).left.ended == old(self).left.ended
+            }),
+            (item matches BinaryElement::Right((k, v2)) ==> {
+                let lo = old(self).variant is Left || old(self).variant is Outer; let ro = old(self).variant is Outer;
+                &&& final(self).buffer@ == old(self).buffer@ + (if old(self).left.data@.contains_key(k) { opairs_r(k, old(self).left.data@[k], v2) }
+                        else if old(self).left.ended && ro { seq![(k, (None::<V1>, Some(v2)))] } else { Seq::empty() })           // #obl:keyed_outer.right_element_paired_with_every_stored_left_element_or_padded_once
+                &&& final(self).right.keys@ == (if lo { old(self).right.keys@.insert(k) } else { old(self).right.keys@ })           // #obl:keyed_outer.right_key_recorded_whenever_the_left_side_is_outer
+                &&& final(self).right.data@ == (if !old(self).left.ended { old(self).right.data@.insert(k, at(old(self).right.data@, k).push(v2)) } else { old(self).right.data@ })   // #obl:keyed_outer.right_element_stored_while_the_left_side_is_open
+                &&& final(self).left == old(self).left && final(self).right.ended == old(self).right.ended
+            }),
+            (item is LeftEnd ==> final(self).left.ended && final(self).left.keys@ =~= Set::<K>::empty() && final(self).right.data@ =~= Map::<K, Seq<V2>>::empty()   // #obl:keyed_outer.left_end_drops_the_right_store_and_the_left_keys
+                && final(self).right.ended == old(self).right.ended && final(self).left.data@ == old(self).left.data@ && final(self).right.keys@ == old(self).right.keys@
+                && final(self).buffer@.len() >= old(self).buffer@.len() && final(self).buffer@.take(old(self).buffer@.len() as int) == old(self).buffer@),
+            (item is RightEnd ==> final(self).right.ended && final(self).right.keys@ =~= Set::<K>::empty() && final(self).left.data@ =~= Map::<K, Seq<V1>>::empty()   // #obl:keyed_outer.right_end_drops_the_left_store_and_the_right_keys
+                && final(self).left.ended == old(self).left.ended && final(self).right.data@ == old(self).right.data@ && final(self).left.keys@ == old(self).left.keys@
+                && final(self).buffer@.len() >= old(self).buffer@.len() && final(self).buffer@.take(old(self).buffer@.len() as int) == old(self).buffer@),
 '''
 PROCESS_SPEC = r'''
         ensures
@@ -176,4 +225,47 @@ def build(x):
     nx.text = '#[verifier::exec_allows_no_decreases_clause]\n' + nx.text
     nx.add_loop_spec(1, '\n            invariant self.inv(),\n')
     pieces += ["impl<K: DataKey + ExchangeData, V1: ExchangeData, V2: ExchangeData> JoinKeyedInner<K, V1, V2> {", nx, "}"]
+    # ---- JoinKeyedOuter::process_item (the element arms fully; the end arms: which stores / key sets are dropped, tuples only appended)
+    FJ = 'src/operator/join/mod.rs'
+    jv = x.enum(FJ, 'JoinVariant'); jv.text = '#[derive(Clone, Copy)]\n' + jv.text
+    lo = x.method(FJ, 'JoinVariant', 'left_outer'); lo.name_result('r'); lo.add_spec('        ensures r == (self is Left || self is Outer),   // #obl:variant.left_outer\n')
+    ro = x.method(FJ, 'JoinVariant', 'right_outer'); ro.name_result('r'); ro.add_spec('        ensures r == (self is Outer),   // #obl:variant.right_outer\n')
+    sh = x.struct(F, 'SideHashMap')
+    sh.sub('V-SUBST', r'HashMap<Key, Vec<Out>, crate::block::GroupHasherBuilder>', 'KMap<Key, Out>', detail='std HashMap<K, Vec<V>, GroupHasherBuilder> -> map-view model KMap<K, V>', must=True)
+    sh.sub('V-SUBST', r'HashSet<Key>', 'KSet<Key>', detail='std HashSet<K> -> set-view model KSet<K>', must=True)
+    sh.text = '#[verifier::reject_recursive_types(Key)]\n#[verifier::reject_recursive_types(Out)]\n' + sh.text
+    jo = x.struct(F, 'JoinKeyedOuter')
+    jo.text = ''.join(f'#[verifier::reject_recursive_types({t})]\n' for t in ('K', 'V1', 'V2')) + jo.text
+    po = x.method(F, 'JoinKeyedOuter', 'process_item')
+    po.add_spec(OUTER_SPEC)
+    po.sub('V-SUBST', r'self\.(left|right)\.data\.entry\((\w+)\)\.or_default\(\)', r'self.\1.data.entry_or_default(\2)', detail='`.entry(k).or_default()` -> entry_or_default(k)', must=True)
+    FR = ("self.left == old(self).left || true, self.prev == old(self).prev, self.coord == old(self).coord, self.variant == old(self).variant,")
+    # the two drain loops of the end arms (before the element loops: they contain `for v in vec` loops over OWNED vectors)
+    for side, other in (('right', 'left'), ('left', 'right')):
+        rx = re.compile(r'for \((?P<k>\w+), (?P<v>\w+)\) in self\.' + side + r'\.data\.drain\(\) \{\s*if !self\.' + other + r'\.keys\.contains\(&(?P=k)\) \{\s*for (?P<e>\w+) in (?P=v) \{(?P<body>.*?)\}\s*\}\s*\}', re.S)
+        mm = rx.search(po.text)
+        if not mm:
+            raise ScanError(f'JoinKeyedOuter::process_item: the drain loop of the {side} store was not found')
+        k, v, e, body = mm.group('k'), mm.group('v'), mm.group('e'), mm.group('body')
+        new = (f"{{ let mut __d = self.{side}.data.drain_all(); let ghost __b0 = self.buffer@;\n"
+               f"                        while __d.len() > 0\n                            invariant self.{side}.data@ =~= Map::empty(), self.buffer@.len() >= __b0.len() && self.buffer@.take(__b0.len() as int) == __b0, self.left.ended == old(self).left.ended, self.right.ended == old(self).right.ended, self.left.keys@ == old(self).left.keys@, self.right.keys@ == old(self).right.keys@, self.{other}.data@ == old(self).{other}.data@, self.prev == old(self).prev, self.coord == old(self).coord, self.variant == old(self).variant, self.left.count == old(self).left.count, self.right.count == old(self).right.count,\n"
+               f"                            decreases __d@.len(),\n"
+               f"                        {{ let ({k}, {v}) = __d.remove(0);\n                            if !self.{other}.keys.contains(&{k}) {{ let mut {v} = {v};\n"
+               f"                                while {v}.len() > 0\n                                    invariant self.{side}.data@ =~= Map::empty(), self.buffer@.len() >= __b0.len() && self.buffer@.take(__b0.len() as int) == __b0, self.left.ended == old(self).left.ended, self.right.ended == old(self).right.ended, self.left.keys@ == old(self).left.keys@, self.right.keys@ == old(self).right.keys@, self.{other}.data@ == old(self).{other}.data@, self.prev == old(self).prev, self.coord == old(self).coord, self.variant == old(self).variant, self.left.count == old(self).left.count, self.right.count == old(self).right.count,\n"
+               f"                                    decreases {v}@.len(),\n"
+               f"                                {{ let {e} = {v}.remove(0);{body} proof {{ assert(self.buffer@.take(__b0.len() as int) =~= __b0); }} }} }} }} }}")
+        po.text = po.text[:mm.start()] + new + po.text[mm.end():]
+        po.note('V-ITER', 1, '`for (k, vs) in M.drain() { if !S.contains(&k) { for v in vs { B } } }` -> loop over M.drain_all() (arbitrary order) and a pop-front loop over vs (B verbatim)')
+    OINV_L = ("__i <= {v}@.len(), {v}@ == at(self.right.data@, key), self.buffer@ == __b0 + opairs_l(key, v1, {v}@.take(__i as int)), self.left == old(self).left || self.left.count == old(self).left.count + 1, "
+              "self.left.data@ == old(self).left.data@, self.left.keys@ == old(self).left.keys@, self.left.ended == old(self).left.ended, self.left.count == old(self).left.count + 1, self.right == old(self).right, self.prev == old(self).prev, self.coord == old(self).coord, self.variant == old(self).variant,")
+    OINV_R = ("__i <= {v}@.len(), {v}@ == at(self.left.data@, key), self.buffer@ == __b0 + opairs_r(key, {v}@.take(__i as int), v2), "
+              "self.right.data@ == old(self).right.data@, self.right.keys@ == old(self).right.keys@, self.right.ended == old(self).right.ended, self.right.count == old(self).right.count + 1, self.left == old(self).left, self.prev == old(self).prev, self.coord == old(self).coord, self.variant == old(self).variant,")
+    for_over_ref_vec(po, 2, OINV_R)
+    for_over_ref_vec(po, 1, OINV_L)
+    po.bind('key', r'BinaryElement::Left\(\((\w+), \w+\)\)')
+    po.bind('v1', r'BinaryElement::Left\(\(\w+, (\w+)\)\)')
+    po.bind('v2', r'BinaryElement::Right\(\(\w+, (\w+)\)\)')
+    po.text = po.text.replace('let ghost __b0 = self.buffer@;\n                        while __i', 'let ghost __b0 = self.buffer@; proof { assert(__b0 + Seq::<(K, (Option<V1>, Option<V2>))>::empty() =~= __b0); }\n                        while __i')
+    po.text = po.text.replace('/*@pair_pushed*/', '/*@pair_pushed*/ proof { assert(self.buffer@.len() == __b0.len() + __i); }')
+    pieces += [jv, "impl JoinVariant {", lo, ro, "}", sh, jo, "impl<K: DataKey + ExchangeData, V1: ExchangeData, V2: ExchangeData> JoinKeyedOuter<K, V1, V2> {", po, "}"]
     return pieces
